@@ -1158,9 +1158,12 @@ func (s *State) findGroupOnDevice(name string) {
 	if gb.ready {
 		return
 	}
+	// Check groups in fixed order, to get deterministic result if
+	// multiple identical groups are found on device.
+	aGroups := s.a.lookup["object-group"]
 GROUP:
-	for _, l := range s.a.lookup["object-group"] {
-		ga := l[0]
+	for _, aName := range slices.Sorted(maps.Keys(aGroups)) {
+		ga := aGroups[aName][0]
 		if ga.parsed != gb.parsed {
 			// Type of object-group differs.
 			continue
